@@ -209,9 +209,17 @@ func stressRun(c *vf.Ctx, batch, from, iters int, race bool, seen map[string]boo
 	case res.ExitCode != 0 && !(race && res.ExitCode == 66): // 66: the race detector's exit status when it reported races
 		rep.Dump = trunc(res.Stderr, 6000)
 		fp := "fatal:" + fatalClass(res.Fatal)
-		if strings.Contains(res.Fatal, "WaitGroup is reused") && strings.Contains(res.Stderr, "daemon.(*OrderedDaemon).stopWorkers") {
-			// same class as the recovered panic of a ShutdownAndWait caller; here it hit the goroutine spawned by Shutdown()
-			fp = "late-bgworker:shutdown-panic-waitgroup-reuse"
+		if strings.Contains(res.Stderr, "daemon.(*OrderedDaemon).stopWorkers") || strings.Contains(res.Stderr, "daemon.(*OrderedDaemon).runBackgroundWorker") {
+			// the same classes as the recovered panics, but raised in a goroutine the harness cannot
+			// guard (spawned by Shutdown()) or as an unrecoverable runtime error
+			switch {
+			case strings.Contains(res.Fatal, "WaitGroup is reused"):
+				fp = "late-bgworker:shutdown-panic-waitgroup-reuse"
+			case strings.Contains(res.Fatal, "WaitGroup misuse"):
+				fp = "late-bgworker:panic-waitgroup-misuse"
+			case strings.Contains(res.Fatal, "concurrent map"):
+				fp = "late-bgworker:fatal-concurrent-map-access"
+			}
 		}
 		c.Violation(fp, fmt.Sprintf("stress child (batch %d race=%v) died in iteration %d: %s", batch, race, at, res.Fatal), rep)
 		next = at + 1
@@ -278,7 +286,7 @@ func run(c *vf.Ctx) {
 	wg.Wait()
 	// free-running stress, plain and -race
 	plainBatches, raceBatches := c.Pick(4, 8), c.Pick(4, 8)
-	plainIters, raceIters := c.Pick(6000, 60000), c.Pick(3000, 30000)
+	plainIters, raceIters := c.Pick(4000, 60000), c.Pick(2000, 30000)
 	sem := make(chan struct{}, 4)
 	for b := 0; b < plainBatches; b++ {
 		wg.Add(1)
